@@ -54,6 +54,9 @@ impl Monitor for C09 {
             .filter(|(c, _)| ctx.post.iter().any(|v| v.conn_id == *c) || ctx.mid.iter().any(|v| v.conn_id == *c))
             .collect();
         let mut must: Vec<&Vec<u8>> = Vec::new();
+        if ctx.uplink.len() >= 64 {
+            out.probe("c09.drain_budget_exhausted");
+        }
         for (_, b) in &processed {
             out.stats.inc("c09.uplink_datagrams");
             match ptype(b) {
